@@ -169,7 +169,9 @@ pub fn conc_campaigns(property: &str) -> Vec<ConcCampaign> {
         "C05" => vec![ConcCampaign { name: "conc-quiescence", profile: General, cases_quick: 800, cases_thorough: 6000, nt: |s| s.unawaited_same_key,
             rule: "generated concurrent programs racing the same keys; quiescence is constructed (all acknowledgements awaited, clock frozen, two sweeps waited for) and the physical snapshot must be a bijection store ids <-> charged ids with a matching total; non-trivial = two writes of one key where the second was issued before the first was acknowledged" },
             ConcCampaign { name: "conc-evict-vs-sweep", profile: EvictVsSweep, cases_quick: 400, cases_thorough: 6000, nt: |s| s.eviction_loop_delayed && s.swept_during_run,
-            rule: "small cache of short-lived TTL keys, heavy puts, weight-changing upserts on keys that expire, eviction loop and weight-update critical sections delayed while a clock thread drives the sweeper; bijection and total at quiescence; non-trivial = the eviction loop ran AND the sweeper collected keys during the run" }],
+            rule: "small cache of short-lived TTL keys, heavy puts, weight-changing upserts on keys that expire, eviction loop and weight-update critical sections delayed while a clock thread drives the sweeper; bijection and total at quiescence; non-trivial = the eviction loop ran AND the sweeper collected keys during the run" },
+            ConcCampaign { name: "conc-sweep-race", profile: SweepRace, cases_quick: 400, cases_thorough: 6000, nt: |s| s.swept_during_run && s.ttl_writes >= 2 && s.threads >= 2,
+            rule: "put-with-TTL / TTL change / delete / re-put cycles on three keys by 2-5 threads while the sweeper is delayed between releasing a key's weight and removing its store entry (see C10); bijection and totals at quiescence; non-trivial = the sweeper collected keys during the run and >= 2 TTL writes were accepted" }],
         "C02" => vec![ConcCampaign { name: "conc-reads", profile: General, cases_quick: 1200, cases_thorough: 10_000, nt: |s| s.overlapping_read_write && s.read_after_completed_overwrite,
             rule: "[general] generated concurrent programs, every write carries a unique token (key, thread, op); all 7 read variants; pressure in 3 of 4 configs; hash functions default/identity/constant/mod 2; history checker: value decodes to the key, was written by a write that began before the read ended and was not refused, and no overwrite/delete ordered after that write had completed before the read began; non-trivial = a read overlapped a write of its key AND a value-returning read followed a completed write of that key" },
             ConcCampaign { name: "conc-delete-window", profile: DeleteWindow, cases_quick: 300, cases_thorough: 4000, nt: |s| s.read_between_delete_and_ack && s.guard_held_during_delete,
@@ -183,8 +185,12 @@ pub fn conc_campaigns(property: &str) -> Vec<ConcCampaign> {
             rule: "the cache weight equals the combined (fixed) put weights of the whole key universe, so everything always fits; thread 0 works sequentially (each write awaited) on two keys nobody else touches, without TTL, while 1-5 other threads churn the other keys with TTL puts, upserts, deletes and a clock thread drives sweeps, with delays in the weight-accounting critical sections; nothing may be refused for space and the owner must always read its latest acknowledged value; non-trivial = the owner's keys went through >= 2 accepted puts AND the sweeper collected keys during the run" }],
         "C09" => vec![ConcCampaign { name: "conc-expiry", profile: General, cases_quick: 500, cases_thorough: 6000, nt: |s| s.ttl_writes >= 1 && s.sweeps_during_run && s.read_after_completed_overwrite,
             rule: "generated concurrent programs with TTL writes and a clock thread; history checker: a returned value whose write carried a TTL must not be served once the clock is certainly past the latest possible deadline of that write (clock values bracketed by stamps); non-trivial = an accepted TTL write, a clock thread, and a value-returning read after a completed write" }],
-        "C10" => vec![ConcCampaign { name: "conc-sweeps", profile: EvictVsSweep, cases_quick: 400, cases_thorough: 6000, nt: |s| s.rotated && s.swept_during_run && s.ttl_writes >= 1,
-            rule: "small cache of short-lived TTL keys, writers, evictions and a clock thread driving sweeps concurrently with worker commands; at quiescence the harness performs one complete sweep of every shard: no key whose deadline lay before that rotation may remain, every held TTL key must be indexed under its current deadline and no key without TTL may be indexed; non-trivial = the final rotation completed, the sweeper collected keys during the run and a TTL write was accepted" }],
+        "C10" => vec![
+            ConcCampaign { name: "conc-sweeps", profile: EvictVsSweep, cases_quick: 400, cases_thorough: 6000, nt: |s| s.rotated && s.swept_during_run && s.ttl_writes >= 1,
+            rule: "small cache of short-lived TTL keys, writers, evictions and a clock thread driving sweeps concurrently with worker commands; at quiescence the harness performs one complete sweep of every shard: no key whose deadline lay before that rotation may remain, every held TTL key must be indexed under its current deadline and no key without TTL may be indexed; non-trivial = the final rotation completed, the sweeper collected keys during the run and a TTL write was accepted" },
+            ConcCampaign { name: "conc-sweep-race", profile: SweepRace, cases_quick: 400, cases_thorough: 6000, nt: |s| s.swept_during_run && s.ttl_writes >= 2 && s.threads >= 2,
+            rule: "2-5 threads cycle put-with-TTL / TTL change or removal / delete / re-put / read on three keys while a clock thread keeps expiring them and the sweeper is delayed 0.2-2.5 ms between releasing a key's weight and removing its store entry; at quiescence: bijection store ids <-> charges, totals, expiry index vs held entries, nothing expired left after a full rotation, counters; reads are checked for staleness; non-trivial = the sweeper collected keys during the run and >= 2 TTL writes were accepted" },
+        ],
         "C16" => vec![ConcCampaign { name: "conc-counters", profile: General, cases_quick: 500, cases_thorough: 6000, nt: |s| s.threads >= 2 && s.evicted_or_rejected,
             rule: "generated concurrent programs; at quiescence hits + misses == lookups issued, KeysAdded - KeysDeleted == keys held, WeightAdded - WeightRemoved == weight used; non-trivial = >= 2 threads and at least one put refused for space" }],
         "C17" => vec![ConcCampaign { name: "conc-no-panic", profile: Deadlock, cases_quick: 400, cases_thorough: 6000, nt: |s| s.threads >= 3 && s.delays > 0,
